@@ -317,7 +317,7 @@ func (f *Polynomial) lcPtr() ff.Element {
 func (f *Polynomial) Lt() *Polynomial {
 	h := f.baseRing.Zero()
 	ld := f.Ld()
-	h.coefs[ld] = f.Coef(ld)
+	h.SetCoefPtr(ld, f.Coef(ld))
 	return h
 }
 
